@@ -25,7 +25,7 @@ type FuncVC struct {
 
 func (ld *Loader) newGen(specs *Specs, opts GenOpts) *Gen {
 	return &Gen{ld: ld, specs: specs, e: newEmitter(), touched: map[string]Sort{}, strLits: map[string]Term{},
-		typeIDs: map[string]int{}, frSeen: map[string]bool{}, opts: opts, abstracted: map[string]int{}, calleesUsed: map[string]string{}}
+		touchedAll: map[string]Sort{}, typeIDs: map[string]int{}, frSeen: map[string]bool{}, opts: opts, abstracted: map[string]int{}, calleesUsed: map[string]string{}}
 }
 
 func (g *Gen) nextBound() int { g.boundN++; return g.boundN }
@@ -55,6 +55,7 @@ func genFunction(ld *Loader, specs *Specs, fn *ssa.Function, ct *Contract, opts 
 	}
 	tr := g.newTrans(fn, true)
 	tr.contract = ct
+	g.topTr = tr
 	e := g.e
 	st := g.initState()
 	rc := tTrue
@@ -155,75 +156,167 @@ func genFunction(ld *Loader, specs *Specs, fn *ssa.Function, ct *Contract, opts 
 	return vc
 }
 
+// frameTargets evaluates the assigns clause of the function under verification in its entry state (cached).
+func (tr *Trans) frameTargets() ([]target, bool) {
+	top := tr.g.topTr
+	if top == nil || top.contract == nil || !top.contract.HasAssigns {
+		return nil, true
+	}
+	if top.frameDone {
+		return top.frameTs, top.frameAll
+	}
+	env := top.topEnv(top.pre)
+	env.useOld = true
+	savedRC, savedSt := top.rc, top.st
+	top.rc, top.st = tTrue, top.pre
+	ts, all := top.allTargets(env, top.contract)
+	top.rc, top.st = savedRC, savedSt
+	top.frameTs, top.frameAll, top.frameDone = ts, all, true
+	return ts, all
+}
+
+// frameFormula states that key is unchanged between pre and cur outside the assigns targets, at object r / index i.
+// ok=false when the whole key may change.
+func (tr *Trans) frameFormula(key string, sort Sort, ts []target, pre, cur, r0, i0 Term) (Term, bool) {
+	g, e := tr.g, tr.e
+	var mine []target
+	for _, t := range ts {
+		if t.key == key {
+			if t.whole && !t.cond.ok() {
+				return tTrue, false
+			}
+			mine = append(mine, t)
+		}
+	}
+	condOf := func(t target) Term {
+		if t.cond.ok() {
+			return t.cond
+		}
+		return tTrue
+	}
+	if !strings.HasPrefix(string(sort), "(Array") {
+		var allowed []Term
+		for _, t := range mine {
+			allowed = append(allowed, condOf(t))
+		}
+		return or(or(allowed...), eq(cur, pre)), true
+	}
+	wm0 := g.topTr.pre.get(e, "$wm", SInt)
+	inner := sort.elem()
+	var allowedWhole []Term
+	for _, t := range mine {
+		if t.whole {
+			allowedWhole = append(allowedWhole, condOf(t))
+		} else if !t.ranged {
+			allowedWhole = append(allowedWhole, and(condOf(t), eq(r0, t.ref)))
+		}
+	}
+	root := g.rootOf(e, r0)
+	guard := and(gt(root, intT(0)), lt(root, wm0))
+	var same Term
+	if strings.HasPrefix(string(inner), "(Array") {
+		var inRange []Term
+		for _, t := range mine {
+			if t.ranged && i0.Sort == SInt {
+				inRange = append(inRange, and(condOf(t), eq(r0, t.ref), le(t.lo, i0), lt(i0, t.hi)))
+			}
+		}
+		same = or(or(inRange...), eq(sel(sel(cur, r0), i0), sel(sel(pre, r0), i0)))
+	} else {
+		same = eq(sel(cur, r0), sel(pre, r0))
+	}
+	return implies(guard, or(or(allowedWhole...), same)), true
+}
+
+func innerIndexSort(sort Sort) Sort {
+	inner := sort.elem()
+	if !strings.HasPrefix(string(inner), "(Array") {
+		return SInt
+	}
+	return Sort(strings.Fields(strings.TrimPrefix(string(inner), "(Array "))[0])
+}
+
+// loopFrame checks (st != nil) or assumes (quantified) the frame of the enclosing contract for the keys a loop havocs.
+func (tr *Trans) loopFrame(li *loopInfo, mod map[string]bool, st *State, cond Term, what string, assume bool) {
+	g, e := tr.g, tr.e
+	ts, all := tr.frameTargets()
+	if all || g.topTr == nil {
+		return
+	}
+	for _, key := range sortedKeys(mod) {
+		sort, ok := g.touchedAll[key]
+		if !ok || keyIsLocal(key) || key == "$wm" {
+			continue
+		}
+		pre := g.topTr.pre.get(e, key, sort)
+		cur := st.get(e, key, sort)
+		isArr := strings.HasPrefix(string(sort), "(Array")
+		if assume {
+			if !isArr {
+				if f, ok := tr.frameFormula(key, sort, ts, pre, cur, Term{}, Term{}); ok {
+					e.assume(cond, f)
+				}
+				continue
+			}
+			r := Term{"fr!r", SInt}
+			i := Term{"fr!i", innerIndexSort(sort)}
+			f, ok := tr.frameFormula(key, sort, ts, pre, cur, r, i)
+			if !ok {
+				continue
+			}
+			pat := fmt.Sprintf("(select %s fr!r)", cur.S)
+			q := fmt.Sprintf("(forall ((fr!r Int) (fr!i %s)) (! %s :pattern (%s)))", i.Sort, f.S, pat)
+			if !strings.HasPrefix(string(sort.elem()), "(Array") {
+				q = fmt.Sprintf("(forall ((fr!r Int)) (! %s :pattern (%s)))", f.S, pat)
+			}
+			e.assume(cond, Term{q, SBool})
+			continue
+		}
+		var r0, i0 Term
+		if isArr {
+			r0 = e.fresh("lframe.r", SInt)
+			i0 = e.fresh("lframe.i", innerIndexSort(sort))
+		}
+		f, ok := tr.frameFormula(key, sort, ts, pre, cur, r0, i0)
+		if !ok {
+			continue
+		}
+		e.oblige(&Obl{Name: fmt.Sprintf("%s#loop%d.frame-%s:%s", tr.label, li.ordinal, what, key), Kind: "frame", Props: g.topTr.propsOf(),
+			Cond: cond, Goal: f, Fn: tr.label, Pos: g.topTr.contract.Where})
+	}
+}
+
 func (tr *Trans) frameObligations(ct *Contract) {
 	g, e := tr.g, tr.e
-	env := tr.topEnv(tr.pre)
-	env.useOld = true
-	tr.rc = tTrue
-	tr.st = tr.pre
-	ts, all := tr.allTargets(env, ct)
+	ts, all := tr.frameTargets()
 	if all {
 		return
 	}
-	wm0 := tr.pre.get(e, "$wm", SInt)
 	for _, key := range sortedKeys(g.touched) {
 		sort := g.touched[key]
 		if keyIsLocal(key) || key == "$wm" {
 			continue
 		}
-		var mine []target
-		whole := false
-		for _, t := range ts {
-			if t.key == key {
-				mine = append(mine, t)
-				if t.whole {
-					whole = true
-				}
-			}
-		}
-		if whole {
-			continue
-		}
 		pre := tr.pre.get(e, key, sort)
 		var parts []Term
 		var vals []NamedTerm
-		isArr := strings.HasPrefix(string(sort), "(Array")
-		if !isArr {
-			for _, r := range tr.rets {
-				parts = append(parts, implies(r.cond, eq(r.st.get(e, key, sort), pre)))
-			}
-		} else {
-			r0 := e.fresh("frame.r", SInt)
+		var r0, i0 Term
+		if strings.HasPrefix(string(sort), "(Array") {
+			r0 = e.fresh("frame.r", SInt)
+			i0 = e.fresh("frame.i", innerIndexSort(sort))
 			vals = append(vals, NamedTerm{"object", r0})
-			inner := sort.elem()
-			twoLevel := strings.HasPrefix(string(inner), "(Array")
-			var allowedWhole []Term
-			for _, t := range mine {
-				if !t.ranged {
-					allowedWhole = append(allowedWhole, eq(r0, t.ref))
-				}
+		}
+		skip := false
+		for _, r := range tr.rets {
+			f, ok := tr.frameFormula(key, sort, ts, pre, r.st.get(e, key, sort), r0, i0)
+			if !ok {
+				skip = true
+				break
 			}
-			root := g.rootOf(e, r0)
-			guard := and(gt(root, intT(0)), lt(root, wm0))
-			for _, r := range tr.rets {
-				post := r.st.get(e, key, sort)
-				var same Term
-				if twoLevel {
-					// index sort
-					isort := Sort(strings.Fields(strings.TrimPrefix(string(inner), "(Array "))[0])
-					i0 := e.fresh("frame.i", isort)
-					var inRange []Term
-					for _, t := range mine {
-						if t.ranged && isort == SInt {
-							inRange = append(inRange, and(eq(r0, t.ref), le(t.lo, i0), lt(i0, t.hi)))
-						}
-					}
-					same = or(or(inRange...), eq(sel(sel(post, r0), i0), sel(sel(pre, r0), i0)))
-				} else {
-					same = eq(sel(post, r0), sel(pre, r0))
-				}
-				parts = append(parts, implies(and(r.cond, guard), or(or(allowedWhole...), same)))
-			}
+			parts = append(parts, implies(r.cond, f))
+		}
+		if skip {
+			continue
 		}
 		e.oblige(&Obl{Name: fmt.Sprintf("%s#frame:%s", tr.label, key), Kind: "frame", Props: tr.propsOf(), Cond: tTrue,
 			Goal: and(parts...), Fn: tr.label, Pos: ct.Where, Values: vals})
